@@ -279,51 +279,35 @@ func TestCorr(t *testing.T) {
 	// ---- VerifyEvidence ----
 	nEv := run.N / 5
 	pool := &proofPool{dataID: map[string]int{}}
-	for i := 0; i < nEv; i++ {
-		n := 1 + r.Intn(8)
-		ids := r.Perm(10)[:n]
-		shares := genShares(r, n)
+	type pv struct {
+		h   evmtypes.Hashable
+		tag int
+		did int
+		raw []byte
+	}
+	type sub struct{ id, which int }
+	mkPV := func(h evmtypes.Hashable, tag int) pv {
+		b, err := h.BytesToHash()
+		if err != nil {
+			t.Fatal(err)
+		}
+		a, err := codectypes.NewAnyWithValue(h.(interface {
+			Reset()
+			String() string
+			ProtoMessage()
+		}))
+		if err != nil {
+			t.Fatal(err)
+		}
+		return pv{h, tag, pool.id(b), a.Value}
+	}
+	doEvidence := func(ids []int, shares []*big.Int, pvs []pv, subs []sub, origin string) {
 		sn, tot := snapshotOf(ids, shares)
-		if tot.Sign() == 0 {
-			// total 0 makes every group a winner (0>=0): excluded by the theorem's hypothesis 0 < total
-			shares[0] = big.NewInt(1)
-			sn, tot = snapshotOf(ids, shares)
-		}
 		cc := libcons.New(func(context.Context) (*valsettypes.Snapshot, error) { return sn, nil }, types.ModuleCdc)
-		nvals := 1 + r.Intn(4)
-		type pv struct {
-			h   evmtypes.Hashable
-			tag int
-			did int
-			raw []byte
-		}
-		var pvs []pv
-		k0 := r.Intn(3)
-		for j := 0; j < nvals; j++ {
-			h, tag := mkProof(r, k0+r.Intn(2))
-			b, err := h.BytesToHash()
-			if err != nil {
-				t.Fatal(err)
-			}
-			a, _ := codectypes.NewAnyWithValue(h.(interface {
-				Reset()
-				String() string
-				ProtoMessage()
-			}))
-			pvs = append(pvs, pv{h, tag, pool.id(b), a.Value})
-		}
-		perm := r.Perm(12)
-		m := r.Intn(len(perm) + 1)
 		var evs []libcons.Evidence
 		var items []string
-		type sub struct{ id, which int }
-		var subs []sub
-		for _, id := range perm[:m] {
-			w := r.Intn(len(pvs))
-			if r.Intn(3) != 0 {
-				w = 0
-			}
-			a, err := codectypes.NewAnyWithValue(pvs[w].h.(interface {
+		for _, s := range subs {
+			a, err := codectypes.NewAnyWithValue(pvs[s.which].h.(interface {
 				Reset()
 				String() string
 				ProtoMessage()
@@ -331,9 +315,8 @@ func TestCorr(t *testing.T) {
 			if err != nil {
 				t.Fatal(err)
 			}
-			evs = append(evs, &types.Evidence{ValAddress: valAddr(id), Proof: a})
-			items = append(items, emit.Pair(emit.ZI(int64(id)), emit.ZI(int64(pvs[w].tag)), emit.ZI(int64(pvs[w].did)), "false"))
-			subs = append(subs, sub{id, w})
+			evs = append(evs, &types.Evidence{ValAddress: valAddr(s.id), Proof: a})
+			items = append(items, emit.Pair(emit.ZI(int64(s.id)), emit.ZI(int64(pvs[s.which].tag)), emit.ZI(int64(pvs[s.which].did)), "false"))
 		}
 		ctx := sdk.Context{}.WithContext(context.Background()).WithLogger(log.NewNopLogger())
 		res, err := cc.VerifyEvidence(ctx, evs)
@@ -362,7 +345,7 @@ func TestCorr(t *testing.T) {
 			if new(big.Int).Mul(backing, big.NewInt(3)).Cmp(new(big.Int).Mul(tot, big.NewInt(2))) < 0 {
 				run.Violate("C04:winner-without-identical-two-thirds",
 					"evidence winner is backed by less than 2/3 of snapshot shares on byte-identical evidence",
-					map[string]any{"kind": "evidence", "snapshot": coqSnapshot(ids, shares, tot), "evidence(val,type,bytes-id)": items, "winner": cls})
+					map[string]any{"kind": "evidence", "origin": origin, "snapshot": coqSnapshot(ids, shares, tot), "evidence(val,type,bytes-id)": items, "winner": cls})
 			}
 		case errors.Is(err, libcons.ErrConsensusNotAchieved):
 			cls = "C04.ONotAchieved"
@@ -371,8 +354,47 @@ func TestCorr(t *testing.T) {
 		}
 		run.Count("kind", "evidence")
 		run.Count("evidence-outcome", cls[:8])
-		run.Case(fmt.Sprintf("C04.CEvidence %s %s %s", coqSnapshot(ids, shares, tot), emit.List(items), cls), m > 0,
+		run.Case(fmt.Sprintf("C04.CEvidence %s %s %s", coqSnapshot(ids, shares, tot), emit.List(items), cls), len(subs) > 0,
 			map[string]any{"kind": "evidence", "snapshot": coqSnapshot(ids, shares, tot), "evidence(val,type,bytes-id,bad)": items, "got": cls})
+	}
+	// corpus (harness/corpus/C04/witnesses.json): the type-confusion witness fixed by f84b10f6 -- the attacker's error
+	// proof whose message is exactly what the honest tx proofs hash, submitted first; and the same with 1 honest short.
+	{
+		honest := &evmtypes.TxExecutedProof{SerializedTX: txBytes(1), SerializedReceipt: receiptBytes(1)}
+		hb, _ := honest.BytesToHash()
+		forged := &evmtypes.SmartContractExecutionErrorProof{ErrorMessage: string(hb)}
+		pvs := []pv{mkPV(forged, tagErr), mkPV(honest, tagTx)}
+		one := big.NewInt(1)
+		doEvidence([]int{0, 1, 2}, []*big.Int{one, one, one}, pvs, []sub{{0, 0}, {1, 1}, {2, 1}}, "corpus:type-confusion")
+		doEvidence([]int{0, 1, 2}, []*big.Int{one, one, one}, pvs, []sub{{0, 0}, {1, 1}}, "corpus:type-confusion-short")
+		doEvidence([]int{0, 1, 2}, []*big.Int{one, one, one}, pvs, []sub{{1, 1}, {0, 0}}, "corpus:type-confusion-short-2")
+	}
+	for i := 0; i < nEv; i++ {
+		n := 1 + r.Intn(8)
+		ids := r.Perm(10)[:n]
+		shares := genShares(r, n)
+		if _, tot := snapshotOf(ids, shares); tot.Sign() == 0 {
+			// total 0 makes every group a winner (0>=0): excluded by the theorem's hypothesis 0 < total
+			shares[0] = big.NewInt(1)
+		}
+		nvals := 1 + r.Intn(4)
+		var pvs []pv
+		k0 := r.Intn(3)
+		for j := 0; j < nvals; j++ {
+			h, tag := mkProof(r, k0+r.Intn(2))
+			pvs = append(pvs, mkPV(h, tag))
+		}
+		perm := r.Perm(12)
+		m := r.Intn(len(perm) + 1)
+		var subs []sub
+		for _, id := range perm[:m] {
+			w := r.Intn(len(pvs))
+			if r.Intn(3) != 0 {
+				w = 0
+			}
+			subs = append(subs, sub{id, w})
+		}
+		doEvidence(ids, shares, pvs, subs, "generated")
 	}
 
 	// ---- queue-level bookkeeping through the real consensus.Queue ----
